@@ -174,6 +174,9 @@ def oracle_batch_histories(ck, rng):
             pos = rng.integers(5, 10, size=(nm, 3)).astype(float)
             mark = 100 * it + a_
             rot = Rotation.random(nm, random_state=int(rng.integers(0, 2**31)))
+            if it % 3 == 1 and a_ >= 1 and truth:
+                # the same picking lattice in several tomograms: identical positions and orientations, different images
+                nm, pos, rot = len(truth[-1][1]), truth[-1][1].copy(), truth[-1][3]
             mol = Molecules(pos, rot, features={"mark": [mark] * nm})
             explicit = [None, None, int(rng.integers(0, 6))][int(rng.integers(0, 3))] if (it % 2 and it >= 2) else None
             if explicit is not None and explicit in b.images:
